@@ -170,6 +170,9 @@ def main(
 
     code = 0
     n_errors, n_notes, n_files = util.count_stats(messages)
+    if options.output == "json":
+        # JSON lines carry the severity in a field, there is no ": note:" text to recognise.
+        n_notes = sum(1 for m in messages if '"severity": "note"' in m)
     if messages and n_notes < len(messages):
         code = 2 if blockers else 1
     if options.error_summary:
